@@ -29,6 +29,11 @@ TIME = rt.envstr("VF_TIME", "int")
 NEV = N + SCRIPT.count("A")          # events created on a path
 NK = sum(SCRIPT.count(c) for c in "RC")   # index arguments
 FIXK = rt.envint("VF_FIXK", -1)       # split: fix the first index argument
+SPLIT12 = rt.envint("VF_SPLIT12", -1)  # split: order of the times of events #1 and #2
+HEAPPRE = rt.envint("VF_HEAPPRE", 0)  # 1: the N initial events arrive in heap order (time of the
+#                                       parent slot <= own time, equal priorities): the build
+#                                       needs no sifting, so every heap-ordered array of N
+#                                       entries is the pre-state at a fraction of the paths
 
 
 class _Target:
@@ -170,6 +175,8 @@ def h_script(ts: List[int], ps: List[int], ks: List[int]) -> bool:
     pre: all(1 <= p <= 3 for p in ps)
     pre: all(0 <= k < NEV for k in ks)
     pre: FIXK < 0 or NK == 0 or ks[0] == FIXK
+    pre: HEAPPRE == 0 or all(ts[(i - 1) // 2] <= ts[i] and ps[i] == 2 for i in range(1, N))
+    pre: SPLIT12 < 0 or (SPLIT12 == 0 and ts[1] < ts[2]) or (SPLIT12 == 1 and ts[1] == ts[2]) or (SPLIT12 == 2 and ts[1] > ts[2])
     post: _
     """
     return script(ts, ps, ks)
